@@ -167,15 +167,15 @@ func (c01) Class(e Ev) string {
 // ---- B1: exhaustive comparison with the TLC-emitted getter tables ----
 
 type c01Tab struct {
-	tei, pusi, tp           [256]int
-	pid                     [256][256]int
-	null, pat               [256][256]bool
-	tsc, afc, cc            [256]int
-	haspay, hasaf           [256]bool
-	valid47, validother     [256]bool
-	inccc, zerocc           [256]int
-	setcc                   [256][16]int
-	haveB12, haveB3         [256]bool
+	tei, pusi, tp       [256]int
+	pid                 [256][256]int
+	null, pat           [256][256]bool
+	tsc, afc, cc        [256]int
+	haspay, hasaf       [256]bool
+	valid47, validother [256]bool
+	inccc, zerocc       [256]int
+	setcc               [256][16]int
+	haveB12, haveB3     [256]bool
 }
 
 func (c01) Table(rows []Ev, tier string, seed int64, rep *TableReport) {
